@@ -213,6 +213,8 @@ func (p *Prog) delegatedFilter(st *ssa.Store, field string) *delegatedFilterInfo
 		info.source = p.substParams(call, h, src)
 		return info
 	}
+	// (the list that is filtered may itself be a parameter: FilterPriorities(dst[:0], list, keep))
+	info.source = p.substParams(call, h, src)
 	switch f := call.Call.Args[predIdx].(type) {
 	case *ssa.MakeClosure:
 		info.pred, _ = f.Fn.(*ssa.Function)
